@@ -1,0 +1,67 @@
+//go:build verif
+
+// Verification hooks (add-only, compiled only with -tags verif). They expose
+// the unexported manifest / signature-file text layer of the JAR signer to the
+// out-of-tree correspondence harness in /verif; no existing behaviour is
+// changed.
+package signjar
+
+import (
+	"archive/zip"
+	"bytes"
+	"crypto"
+	"io"
+	"net/http"
+)
+
+// VerifSplitManifest calls splitManifest.
+func VerifSplitManifest(manifest []byte) ([][]byte, bool) { return splitManifest(manifest) }
+
+// VerifParseManifest calls parseManifest (the variant that reports `malformed`).
+func VerifParseManifest(manifest []byte) (*FilesMap, bool, error) { return parseManifest(manifest) }
+
+// VerifParseSection calls parseSection.
+func VerifParseSection(section []byte) (http.Header, error) { return parseSection(section) }
+
+// VerifWriteAttribute calls writeAttribute on a fresh buffer.
+func VerifWriteAttribute(key, value string) []byte {
+	var out bytes.Buffer
+	writeAttribute(&out, key, value)
+	return out.Bytes()
+}
+
+// VerifWriteSection calls writeSection on a fresh buffer.
+func VerifWriteSection(hdr http.Header, first string) []byte {
+	var out bytes.Buffer
+	writeSection(&out, hdr, first)
+	return out.Bytes()
+}
+
+// VerifKeepFile calls keepFile.
+func VerifKeepFile(name string) bool { return keepFile(name) }
+
+// VerifSigNames calls sigNames.
+func VerifSigNames(pubkey crypto.PublicKey, alias string) (string, string) {
+	return sigNames(pubkey, alias)
+}
+
+// VerifVerifySigFile calls verifySigFile.
+func VerifVerifySigFile(sigfile, manifest []byte) (http.Header, error) {
+	return verifySigFile(sigfile, manifest)
+}
+
+// VerifVerifyManifest calls verifyManifest.
+func VerifVerifyManifest(inz *zip.Reader, manifest []byte) error {
+	return verifyManifest(inz, manifest)
+}
+
+// VerifHashFile calls hashFile.
+func VerifHashFile(keys http.Header, content io.Reader, suffix string) error {
+	return hashFile(keys, content, suffix)
+}
+
+// VerifHasDigest calls hasDigest.
+func VerifHasDigest(keys http.Header) bool { return hasDigest(keys) }
+
+// VerifNames returns the package's path constants.
+func VerifNames() (string, string) { return metaInf, manifestName }
